@@ -83,19 +83,29 @@ func TestOwnerFunction(t *testing.T) {
 type RouteCase struct {
 	P   int        `json:"p"`
 	Ids [][16]byte `json:"ids"`
+	// Place: per partition (cyclic) 0 = on node 0, 1 = on node 1, 2 = on both, 3 = on no node (a partition that lost its last
+	// replica: the catalogue keeps it and the allocator looks after it); empty = partition i on node i mod 2
+	Place []int `json:"place,omitempty"`
 }
 
 func TestBatchGroupingMatchesSingleRouting(t *testing.T) {
 	pbt.Run(t, pbt.Prop[RouteCase]{
 		ID: "C10", Name: "TestBatchGroupingMatchesSingleRouting",
-		Rule: "a real storage.Dataset with P in 1..48 partitions (layer B0) and 1-24 generated ids (same id generator, in-batch repeats allowed): the partition chosen by the single-item path (getPartitionForId) equals the reference owner, the batch path (groupBatchItemsByPartition) puts every item into exactly that partition's group and loses or duplicates none, and a second Dataset object built from the same metadata (a restarted node) routes identically; non-trivial = P>=2 and >=2 ids; distinct = distinct case JSON",
+		Rule: "a real storage.Dataset with P in 1..48 partitions (layer B0; partition i on node i mod 2, or a generated placement in which partitions sit on node 0, node 1, both or no node at all) and 1-24 generated ids (same id generator, in-batch repeats allowed): the partition chosen by the single-item path (getPartitionForId) equals the reference owner, the batch path (groupBatchItemsByPartition) puts every item into exactly that partition's group and loses or duplicates none, and a second Dataset object built from the same metadata (a restarted node) routes identically; non-trivial = P>=2 and >=2 ids; distinct = distinct case JSON",
 		Gen: func(t *rapid.T) RouteCase {
-			return RouteCase{P: rapid.SampledFrom([]int{1, 2, 3, 4, 5, 6, 7, 8, 12, 16, 31, 48}).Draw(t, "p"), Ids: rapid.SliceOfN(genID(), 1, 24).Draw(t, "ids")}
+			return RouteCase{P: rapid.SampledFrom([]int{1, 2, 3, 4, 5, 6, 7, 8, 12, 16, 31, 48}).Draw(t, "p"), Ids: rapid.SliceOfN(genID(), 1, 24).Draw(t, "ids"),
+				Place: rapid.OneOf(rapid.Just([]int(nil)), rapid.SliceOfN(rapid.SampledFrom([]int{0, 1, 2, 3, 3}), 1, 8)).Draw(t, "place")}
 		},
 		Check: func(c RouteCase, o *pbt.Obs) *pbt.Failure {
 			placement := make([][]int, c.P)
 			for i := range placement {
 				placement[i] = []int{i % 2}
+				if len(c.Place) > 0 {
+					placement[i] = [][]int{{0}, {1}, {0, 1}, {}}[c.Place[i%len(c.Place)]]
+					if len(placement[i]) == 0 {
+						o.Label("partition-without-replicas")
+					}
+				}
 			}
 			cl := lite.New(2, 2, 0, placement)
 			defer cl.Close()
